@@ -287,6 +287,11 @@ def check_axis_table(ctx):
             mentioned = {x.id for x in ast.walk(e) if isinstance(x, ast.Name)}
             if not (mentioned & ({dvar, svar, memo} | evalvars | {v for v in lookvars if not v.startswith("!")})):
                 return None
+            # the bound / evaluated size compared with a literal (`cls_size == 1`): true for some bindings, false for others -- both outcomes
+            # belong to the abstract input class "name bound, sizes differ" and are explored (a temporary holding this test is treated the same)
+            if isinstance(e, ast.Compare) and len(e.ops) == 1 and isinstance(e.ops[0], (ast.Eq, ast.NotEq)) and isinstance(e.comparators[0], ast.Constant) \
+                    and isinstance(e.left, ast.Name) and (e.left.id in evalvars or e.left.id in lookvars) and type(e.comparators[0].value) is int:
+                return None
             raise AnalysisError(f"C01.2: unrecognised condition `{t}` in the per-axis check")
 
         def test_oracle(node):
@@ -562,6 +567,27 @@ def check_slice_agreement(ctx):
             ctx.ok("C01.4", f.qualname, f"_check_dims(dims[{s0}], shape[{s1}])")
     ctx.counters["check_dims_calls"] = n
     ctx.floor("C01.4", "check_dims_calls", 3)
+    # left to right: the axes in front of the multi-axis specifier are matched (and bind their names) before the axes after it -- a symbolic axis
+    # after `*name` may use a name bound in front of it (`"c *spatial 2*c"`); matched the other way round `2*c` meets an unbound `c`
+    order = {}
+
+    def _pre(n_):
+        order[id(n_)] = len(order)
+        for c_ in ast.iter_child_nodes(n_):
+            _pre(c_)
+
+    _pre(f.node)
+    pre_calls = [c for c in ast.walk(f.node) if m.is_call_to(f, c, "_array_types._check_dims") and isinstance(c.args[0], ast.Subscript) and isinstance(c.args[0].slice, ast.Slice)
+                 and c.args[0].slice.lower is None and c.args[0].slice.upper is not None]
+    suf_calls = [c for c in ast.walk(f.node) if m.is_call_to(f, c, "_array_types._check_dims") and isinstance(c.args[0], ast.Subscript) and isinstance(c.args[0].slice, ast.Slice)
+                 and c.args[0].slice.lower is not None and c.args[0].slice.upper is None]
+    if len(pre_calls) == 1 and len(suf_calls) == 1:
+        if order[id(suf_calls[0])] < order[id(pre_calls[0])]:
+            ctx.bad("C01.4", f, suf_calls[0], f"the axes after the multi-axis specifier (`{short(suf_calls[0], 50)}`) are matched before the axes in front of it (`{short(pre_calls[0], 50)}`): "
+                    "names bind left to right, so a symbolic axis behind `*name` / `...` that uses a name bound in front of it is evaluated while that name is still unbound "
+                    "(AnnotationError on a well-typed array)", construct="suffix axes matched before prefix axes")
+        else:
+            ctx.ok("C01.4", f.qualname, "prefix axes are matched before suffix axes (names bind left to right)")
     # the multi-axis segment: every slice of the shape that is not an argument of _check_dims
     arg_ids = {id(a) for c in ast.walk(f.node) if m.is_call_to(f, c, "_array_types._check_dims") for a in c.args}
     segs = [x for x in ast.walk(f.node) if isinstance(x, ast.Subscript) and norm(x.value).endswith(".shape") and isinstance(x.slice, ast.Slice) and id(x) not in arg_ids]
